@@ -97,6 +97,16 @@ func byteLiteralsOf(fn *ssa.Function) map[string]bool {
 						out[s] = true
 					}
 				}
+			case *ssa.Phi:
+				for _, e := range x.Edges {
+					if s, ok := stringConst(e); ok {
+						out[s] = true
+					}
+				}
+			case *ssa.Store:
+				if s, ok := stringConst(x.Val); ok {
+					out[s] = true
+				}
 			}
 		}
 	}
@@ -105,6 +115,13 @@ func byteLiteralsOf(fn *ssa.Function) map[string]bool {
 
 // widthOfArg: number of bytes a Write(arg)/WriteString(arg) emits; -1 if unknown.
 func widthOfArg(v ssa.Value, at *ssa.BasicBlock) int {
+	for {
+		ct, ok := v.(*ssa.ChangeType)
+		if !ok {
+			break
+		}
+		v = ct.X
+	}
 	if s, ok := evalBytes(v); ok {
 		return len(s)
 	}
